@@ -417,16 +417,18 @@ std::string gen_keys_into(PlanText &p, size_t n, size_t eps, int chunks, Rng &cf
 
 /// Fills a plan with a scale-slot recipe suited to (key type, epsilon). Returns the motif signature.
 template<typename K>
-std::string set_scale_recipe(PlanText &p, size_t eps, Rng &cfg, Rng &work, bool allow_16m) {
+std::string set_scale_recipe(PlanText &p, size_t eps, Rng &cfg, Rng &work, bool allow_16m, bool float_slopes = false) {
     gen::KeyMap<K> km;
     p.keys.clear();
     uint64_t seed = work.next() >> 1;
     unsigned kind = (unsigned) cfg.below(allow_16m ? 4 : 3);
+    if (float_slopes && cfg.chance(500)) kind = 0; // single-precision slopes: the long segment is where their precision matters
     if (km.U < (uint64_t(1) << 36)) kind = 2; // small universes cannot hold millions of distinct keys: many-segments walk
     std::string sig;
     if (kind == 0) {          // one segment spanning more than 2^23 positions (single construction thread)
         size_t n = (size_t) cfg.range(8450000, 9600000);
         uint64_t step = cfg.range(1, 200), jitter = cfg.coin() ? 0 : std::min<uint64_t>(step * eps / 2, step * 40);
+        if ((step & (step - 1)) == 0 && cfg.chance(800)) step += 1 + 2 * cfg.below(3); // powers of two make every slope exact in binary
         p.set("recipe", "linear " + std::to_string(n) + " " + std::to_string(seed) + " " + std::to_string(step) + " " + std::to_string(jitter) + " 0");
         p.set("procs", 1); p.set("maxthreads", 1);
         sig = "scale-linear+";
